@@ -2,21 +2,24 @@
 #pragma once
 #include <sstream>
 #include <iostream>
+#include <sys/stat.h>
 #include <sys/wait.h>
 #include <unistd.h>
 #include "adapters/tb.hpp"
 #include "common/mc.hpp"
 
 namespace tbrun {
-struct TbResult { int sig; int kind; int status; uint32_t consumed, outLen; char out[4000]; char err[120]; };
+struct TbResult { int sig; int kind; int status; uint32_t consumed, outLen; char out[4000]; char err[120]; uint32_t fileLen[8]; char files[8][64]; };
 
-inline TbResult run(const std::string &binPath, const std::string &input, int randMode, unsigned seed, size_t maxCycles, double timeout = 120) {
+// workDir: directory the testbench runs in (its simout<n> files are created there and returned in the result); "" = current directory
+inline TbResult run(const std::string &binPath, const std::string &input, int randMode, unsigned seed, size_t maxCycles, double timeout = 120, const std::string &workDir = "") {
   int fd[2]; if (pipe(fd)) mc::harness_fail("pipe");
   fflush(stdout); fflush(stderr);
   pid_t pid = fork();
   if (pid == 0) {
     close(fd[0]);
     mc::child_limits((size_t)3 << 30);
+    if (!workDir.empty()) { mkdir(workDir.c_str(), 0755); if (chdir(workDir.c_str())) _exit(6); }
     std::istringstream in(input); std::ostringstream out, err;
     std::cin.rdbuf(in.rdbuf()); std::cout.rdbuf(out.rdbuf()); std::cerr.rdbuf(err.rdbuf());
     static TbResult r; memset(&r, 0, sizeof r);
@@ -29,6 +32,8 @@ inline TbResult run(const std::string &binPath, const std::string &input, int ra
     r.outLen = after.size(); memcpy(r.out, after.data(), std::min(after.size(), sizeof r.out));
     strncpy(r.err, e.c_str(), sizeof r.err - 1);
     r.consumed = input.size() - (size_t)in.rdbuf()->in_avail();
+    tb::close_streams();
+    for (int n = 0; n < 8; n++) { std::string f = mc::slurp("simout" + std::to_string(n)); r.fileLen[n] = f.size(); memcpy(r.files[n], f.data(), std::min(f.size(), sizeof r.files[n])); unlink(("simout" + std::to_string(n)).c_str()); }
     if (write(fd[1], &r, sizeof r) != (ssize_t)sizeof r) _exit(5);
     _exit(0);
   }
